@@ -42,6 +42,16 @@ def stream(family, tier):
             decs = list(G.decorate(cl, heads, k=k))
             yield decs[0] if k % 2 == 0 else decs[1 + k % 3]
             k += 1
+    elif family == "FT":
+        for cl in G.ft_programs():
+            qs = [G.A("s"), G.A("t")]
+            yield {"clauses": cl, "queries": qs, "evidence": []}
+            yield {"clauses": cl, "queries": [G.A("s")], "evidence": []}
+            yield {"clauses": cl, "queries": [G.A("a")], "evidence": [[G.A("t"), k % 2 == 0, "pair"]]}
+            k += 1
+    elif family == "FC3m":  # FC3 written with body disjunctions
+        for p in stream("FC3", tier):
+            yield dict(p, merge_or=True)
     elif family in ("FC3", "FC3g"):
         # query orders: all permutations of the derived atoms (thorough) / two of them (quick),
         # plus one conjunction query
